@@ -34,6 +34,19 @@ def rand_tt(tt, modes, r, gen, dt, decay=False, scale=1.0):
     return tt.TT(cores)
 
 
+def raw_tt(tt, modes, r, gen, dt):
+    """random TT with *all* interior ranks equal to r, even where the mode sizes cannot support them (an over-parameterised
+    object, e.g. a user-supplied initial guess of arbitrary rank)"""
+    d = len(modes)
+    is_m = isinstance(modes[0], tuple)
+    R = [1] + [r] * (d - 1) + [1]
+    cores = []
+    for k in range(d):
+        sh = [R[k], modes[k][0], modes[k][1], R[k + 1]] if is_m else [R[k], modes[k], R[k + 1]]
+        cores.append(torch.randn(sh, generator=gen, dtype=torch.float64).to(dt))
+    return tt.TT(cores)
+
+
 def dense_op(A):
     """dense operator as a matrix prod(M) x prod(N)"""
     D = project.dense(A.cores)
@@ -129,7 +142,7 @@ def run_product(st, opts):
     if cfg["guess"] in ("fresh", "reused"):
         g = rand_tt(tt, gshape, 1, gen, dt)
     elif cfg["guess"] == "big":
-        g = rand_tt(tt, gshape, 5, gen, dt)
+        g = raw_tt(tt, gshape, 5, gen, dt)
     elif cfg["guess"] == "alias":
         g = ops[1] if op != "amen_mm" else None        # the operand itself as the initial guess (square modes)
         if op == "amen_mm":
